@@ -1,6 +1,7 @@
 import UflVerif.Model.Driver
 import UflVerif.Model.Order
 import UflVerif.Model.Construct
+import UflVerif.Model.Replace
 open UflVerif SExp
 
 /- requests (one S-expression per line), one reply line each:
@@ -81,6 +82,12 @@ def answer (line : String) : String :=
     (match Expr.ofSExpL args with
      | some xs => mk name xs
      | none => "(parse-error)")
+  | some (.list (.atom "replace" :: e :: pairs)) =>
+    (match Expr.ofSExp e, pairs.mapM (fun p => match p with
+        | .list [.atom key, img] => (Expr.ofSExp img).map (fun i => (SExp.decode key, i))
+        | _ => none) with
+     | some x, some m => showRes (Expr.replaceE m x)
+     | _, _ => "(parse-error)")
   | some (.list [.atom "cmp", a, b]) =>
     (match Expr.ofSExp a, Expr.ofSExp b with
      | some x, some y => s!"(ok {Expr.ordStr (Expr.cmp x y)})"
